@@ -7,7 +7,7 @@ echo "== unchanged tree"
 for p in $(python3 run.py list); do QV_EVIDENCE_DIR=/tmp/qv-evidence-scratch python3 run.py check $p >/tmp/rg.out 2>&1 || { echo "  FAIL $p"; fail=1; }; done
 echo "== seeded changes"
 for d in /verif/seeded/*/; do
-  id=$(basename $d); prop=$(python3 -c "import json;print(json.load(open('$d/meta.json'))['property'])")
+  id=$(basename $d); prop=$(python3 -c "import json;m=json.load(open('$d/meta.json'));print(m.get('detect_with') or m['property'])")
   git -C /repo apply --check $d/patch.diff 2>/dev/null || { echo "  $id: patch does not apply to the current tree"; continue; }
   git -C /repo apply $d/patch.diff
   QV_EVIDENCE_DIR=/tmp/qv-evidence-scratch python3 run.py check $prop >/tmp/rg.out 2>&1; rc=$?
